@@ -1,16 +1,19 @@
 import FxVerif.Model.C01
+import FxVerif.Model.C01Gen
 import FxVerif.Model.Util
 /-! line-protocol driver for the C01/C02 model: `lake env lean --run Driver/C01.lean < ops.txt`
 
 ops (all numbers decimal; lists comma separated, `-` = empty):
   reset <threshold> <multiple> <slashFracMantissa> [<chain> <signedWindow> <nOracles>]
-  claim <wrapperBridger> <innerBridger> <nonce> <hashId> <kind: p | c | o | s:<extIds>> <extHeight>
+  claim <wrapperBridger> <innerBridger> <nonce> <hashId> <kind: p | c | r | o | s:<extIds>> <extHeight>
   bond <oracle> <bridger> <ext> <amount> <dep>
   adddel <oracle> <amount> <dep>
   editbr <oracle> <bridger>
   unbond <oracle> <ubd> <bal> <dep>
   gov <oracles> <dep>
   endblock <slashed> <oracleSetReq> [<blocks>]
+  genesis                                         export the module state, start a fresh store from that genesis (InitGenesis)
+  save | load                                     small-scope enumeration: remember / restore the model state (answer `ok`)
   exec <nonce> <outcome: o | r | f> <forest>      forest ::= [ call , call , ... ]    call ::= <nonce>:<outcome><forest>
        e.g.  exec 1 o [1:o[],2:r[3:o[]],3:o[]]   (the calls the called-back contracts make, in order)
 answer: `<out> lo=.. tp=.. ln=.. or=.. bb=.. be=.. prop=.. atts=.. pend=.. ex=.. ev=..` (maps in key order; ev = nonce/hash observed by this op; ex = nonce:times its
@@ -25,7 +28,7 @@ def bool? (w : String) : Option Bool :=
   if w == "1" then some true else if w == "0" then some false else none
 
 def kind? (w : String) : Option Kind :=
-  if w == "p" || w == "c" then some .pending   -- send-to-fx / bridge-call claim: both are parked for later execution
+  if w == "p" || w == "c" || w == "r" then some .pending   -- send-to-fx / bridge-call / bridge-call-result claim: all parked for later execution
   else if w == "o" then some .other
   else if w.startsWith "s:" then (natList? (w.drop 2).toString).map Kind.oracleSet
   else none
@@ -108,16 +111,27 @@ def showState (s : State) : String :=
   s!"lo={s.lastObserved} tp={s.lastTotalPower} ln={joinOr ln ","} or={joinOr ors ","} bb={joinOr bb ","} be={joinOr be ","} " ++
   s!"prop={joinOr ((sortNat s.proposal).map toString) ","} atts={joinOr atts ";"} pend={joinOr ((sortNat s.pending).map toString) ","} ex={showEx s.executedLog}"
 
-def stepLine (s : State) (line : String) : State × String :=
+/-- driver state: the model state and the state remembered by `save` -/
+structure DS where
+  cur : State
+  saved : State
+
+def stepLine (d : DS) (line : String) : DS × String :=
+  let s := d.cur
   match words line with
   | "reset" :: rest =>
     match rest with
     | t :: m :: f :: _ =>   -- further fields (chain, signed window, #oracles) only matter to the harness
       match t.toNat?, m.toNat?, f.toNat? with
-      | some t, some m, some f => (init { threshold := t, multiple := m, slashFrac := f }, "ok")
-      | _, _, _ => (s, "bad-op")
-    | [] => (init {}, "ok")
-    | _ => (s, "bad-op")
+      | some t, some m, some f => ({ d with cur := init { threshold := t, multiple := m, slashFrac := f } }, "ok")
+      | _, _, _ => (d, "bad-op")
+    | [] => ({ d with cur := init {} }, "ok")
+    | _ => (d, "bad-op")
+  | ["save"] => ({ d with saved := s }, "ok")
+  | ["load"] => ({ d with cur := d.saved }, "ok")
+  | ["genesis"] =>
+    let (s', o) := gstep s .genesis
+    ({ d with cur := s' }, showOut o ++ " " ++ showState s' ++ " ev=-")
   | ws =>
     match parseOp ws with
     | some op =>
@@ -125,7 +139,7 @@ def stepLine (s : State) (line : String) : State × String :=
       -- ev = the (nonce, hash id) entries this step appended to the observation log
       let added := s'.observedLog.drop s.observedLog.length
       let ev := if added.isEmpty then "-" else "+".intercalate (added.map fun p => s!"{p.1}/{p.2}")
-      (s', showOut o ++ " " ++ showState s' ++ " ev=" ++ ev)
-    | none => (s, "bad-op")
+      ({ d with cur := s' }, showOut o ++ " " ++ showState s' ++ " ev=" ++ ev)
+    | none => (d, "bad-op")
 
-def main : IO Unit := runDriver stepLine (init {})
+def main : IO Unit := runDriver stepLine { cur := init {}, saved := init {} }
